@@ -154,6 +154,12 @@ func ctClass(m *msggen.Msg) string {
 // framing plus the declared coding.
 func bodyTag(m *msggen.Msg) string {
 	if m.Spec.Kind == "request" {
+		switch m.Spec.Adjust {
+		case "te+cl":
+			return "chunked+content-length"
+		case "unknown-length":
+			return "unknown-length"
+		}
 		if m.Spec.Enc != "none" && ctClass(m) != "" {
 			return "content-coded,ct=" + ctClass(m)
 		}
@@ -908,7 +914,7 @@ func main() {
 	rep.Coverage["distinct_outcomes"] = distinctOutcomes
 	rep.Coverage["exhaustive"] = only == nil
 	rep.Coverage["rule"] = "cases = every message of msggen.BodySpace ∪ HeaderSpace ∪ EdgeSpace x capture option {all, none, opt-in, opt-out} (every message) and x 10 further option settings (post-data and body options set independently, option histories where the last setting wins, empty / one-element / upper-case prefix lists) on the messages of 6 body-size classes; states = distinct (message, option) pairs; a case is non-trivial when the body is non-empty, the option captures it, and the model has to do more than copy bytes: the message is chunked, content-coded, not valid UTF-8, or a form/multipart body that is parsed into parameters. Session family: every sequence of K full exchanges (request + its own response) over a pool of 8 exchanges x response arrival order {sequential, after all requests in reverse order, after all requests in request order} x options {all, opt-in}, plus the length-1 baseline, logged through one logger; all entries are compared with the model of their own exchange only after the last exchange was logged, then the export handler's JSON and the reset handler's JSON (?return=true) are parsed back and compared entry by entry and the log must be empty; a session is non-trivial when a later captured response body fits into the memory of an earlier one"
-	rep.Coverage["bounds"] = fmt.Sprintf("tier %s: body space = {request POST, response 200} x sizes %v (quick: the classes above 4097 with 3 of the 5 chunk lists) x {Content-Length, close (responses), chunked x chunk lists x trailers 0..2} x content codings %v x content types requests %v / responses %v (form sets: 1 pair, 4 pairs with a repeated name / reserved characters / empty value, non-UTF-8 and non-ASCII pairs; multipart sets: 1 field, field + text file, binary file + field; a pad parameter brings the body to the requested size); header space = requests {GET,POST,PUT} x HTTP/1.1,1.0 x query pool %q x Cookie pool %q x repeated/empty header pool, responses {200,201,301,302,404,204,304} x versions x Set-Cookie pool %q x header pool x Location pool %q; opt-in list %v, opt-out list %v; edge space = request methods {GET,DELETE,PATCH,OPTIONS,PUT} with a body, content types {absent, unparseable media type, form with parameters / in upper case / with a non-UTF-8 parameter name / that does not parse, multipart with quoted boundary / without boundary / with an empty and a typed part} x framings x {identity, gzip, zlib deflate, unknown coding}, non-UTF-8 bytes in a query value and in a header value, 206 x codings x framings, 304 and answers to HEAD {200,404,301} with Content-Length / chunked framing headers and no body, Location on {200,201,404}; session length K = 3 (quick) / 4 (thorough)",
+	rep.Coverage["bounds"] = fmt.Sprintf("tier %s: body space = {request POST, response 200} x sizes %v (quick: the classes above 4097 with 3 of the 5 chunk lists) x {Content-Length, close (responses), chunked x chunk lists x trailers 0..2} x content codings %v x content types requests %v / responses %v (form sets: 1 pair, 4 pairs with a repeated name / reserved characters / empty value, non-UTF-8 and non-ASCII pairs; multipart sets: 1 field, field + text file, binary file + field; a pad parameter brings the body to the requested size); header space = requests {GET,POST,PUT} x HTTP/1.1,1.0 x query pool %q x Cookie pool %q x repeated/empty header pool, responses {200,201,301,302,404,204,304} x versions x Set-Cookie pool %q x header pool x Location pool %q; opt-in list %v, opt-out list %v; edge space = request methods {GET,DELETE,PATCH,OPTIONS,PUT} with a body, content types {absent, unparseable media type, form with parameters / in upper case / with a non-UTF-8 parameter name / that does not parse, multipart with quoted boundary / without boundary / with an empty and a typed part} x framings x {identity, gzip, zlib deflate, unknown coding}, non-UTF-8 bytes in a query value and in a header value, 206 x codings x framings, 304 and answers to HEAD {200,404,301} with Content-Length / chunked framing headers and no body, Location on {200,201,404}, query strings with '=' inside values and names / empty names / flags, requests whose parsed form has Transfer-Encoding chunked AND a content length, or a body of unknown length (neither); session length K = 3 (quick) / 4 (thorough)",
 		tier, sizesFor(tier), msggen.Encodings, msggen.RequestCTs, msggen.ResponseCTs, msggen.QueryRaw, msggen.ReqCookieHeaders, msggen.ResCookieHeaders, msggen.Locations, optIn, optOut)
 	rep.Assumptions = []string{
 		"the reference values are the generator's own lists (header lines, query pairs, cookies, form pairs, multipart parts, payload before/after content coding); martian and net/http parsing results are never used as expectations",
